@@ -213,6 +213,48 @@ def histories_for(ctx):
     return hs + two + three_all + three + longs + hm
 
 
+def branch_hits(hs):
+    """which input classes of the property the generated histories reach (measured on the op lines)"""
+    b = {"finalize: one padding block (len%64 < 56)": 0, "finalize: wrap-around, two padding blocks (len%64 >= 56)": 0,
+         "finalize: len%64 == 0": 0, "finalize: empty message": 0, "update completes a block mid-call": 0,
+         "update with empty data": 0, "finalize on reused hasher": 0, "reset() with partial buffer": 0,
+         "hmac key < 64": 0, "hmac key == 64": 0, "hmac key > 64": 0, "hmac empty key": 0, "digests of messages > 300 bytes": 0}
+    for h in hs:
+        n, finals = 0, 0
+        for line in h:
+            t = line.split()
+            if t[0] == "update":
+                k = 0 if t[1] == "-" else len(t[1]) // 2
+                if k == 0:
+                    b["update with empty data"] += 1
+                if n % 64 + k >= 64:
+                    b["update completes a block mid-call"] += 1
+                n += k
+            elif t[0] == "final":
+                r = n % 64
+                b["finalize: one padding block (len%64 < 56)" if r < 56 else "finalize: wrap-around, two padding blocks (len%64 >= 56)"] += 1
+                if r == 0 and n:
+                    b["finalize: len%64 == 0"] += 1
+                if n == 0:
+                    b["finalize: empty message"] += 1
+                if n > 300:
+                    b["digests of messages > 300 bytes"] += 1
+                if finals:
+                    b["finalize on reused hasher"] += 1
+                finals += 1
+                n = 0
+            elif t[0] == "rst":
+                if n % 64:
+                    b["reset() with partial buffer"] += 1
+                n = 0
+            elif t[0] in ("hmac", "spechmac"):
+                k = 0 if t[1] == "-" else len(t[1]) // 2
+                b["hmac key < 64" if k < 64 else "hmac key == 64" if k == 64 else "hmac key > 64"] += 1
+                if k == 0:
+                    b["hmac empty key"] += 1
+    return b
+
+
 def nontrivial(h, out):
     if len(h) < 2 or not out:
         return None
@@ -241,6 +283,7 @@ def check(ctx):
             for l in h:
                 ops[l.split()[0]] = ops.get(l.split()[0], 0) + 1
         ctx.cov["op_histogram"] = ops
+        ctx.cov["branch_hits"] = branch_hits(hs)
         ctx.cov["samples"] = [" ; ".join(x if len(x) < 120 else x[:100] + "…" for x in h[:6]) for h in (hs[1:2] + hs[3:5] + hs[-2:])]
         # heavy histories first, spread over the workers
         order = sorted(range(len(hs)), key=lambda i: -sum(len(l) for l in hs[i]))
